@@ -206,7 +206,7 @@ Section Lockset.
   Lemma wl_ev h e l : wl h (GEv e) = Some l ->
     disciplined h [(false, e)] /\ In (ONorm, held_after h [(false, e)]) l.
   Proof.
-    destruct e as [lc| | | | | |]; [destruct lc|..]; destruct h; cbn; intros W; try discriminate;
+    destruct e as [lc| | | | | | |]; [destruct lc|..]; destruct h; cbn; intros W; try discriminate;
       inversion W; subst; cbn; repeat split; auto; try discriminate.
   Qed.
 
@@ -445,7 +445,7 @@ Section Order.
     - auto.
     - auto.
     - apply clean_app; auto.
-    - destruct e as [[]| | | | | |]; try discriminate; intros y [<-|[]]; cbn; auto.
+    - destruct e as [[]| | | | | | |]; try discriminate; intros y [<-|[]]; cbn; auto.
     - eapply Hc; eauto.
     - eapply Hc; eauto.
   Qed.
@@ -500,7 +500,7 @@ Section Order.
       destruct (IHexec1 st x Eb) as [I1 _]. destruct (IHexec2 st y Ef) as [I2 _]. rewrite seen_after_app. split.
       + apply ldr_ok_app; [exact I1|]. eapply ldr_ok_true_mono; [|exact I2]. intros ->. apply seen_after_true.
       + intros _ ->. rewrite seen_after_true. apply seen_after_true.
-    - revert A. destruct e as [[]| | | | | |]; destruct st; cbn; intros A; try discriminate;
+    - revert A. destruct e as [[]| | | | | | |]; destruct st; cbn; intros A; try discriminate;
         inversion A; subst; cbn; repeat split; auto; try discriminate.
     - destruct (quietf 4 tbl f) eqn:Q; [|discriminate]. inversion A; subst r.
       pose proof (quietf_clean _ _ _ _ _ _ Q H H0) as C.
@@ -549,7 +549,7 @@ Section Order.
       destruct (ldr_before_unlock tbl true fin) as [y|] eqn:Ef; [|discriminate]. inversion A; subst r.
       destruct (IHexec1 st x Eb) as [I1 _]. destruct (IHexec2 true y Ef) as [I2 _]. rewrite seen_after_app. split; [|auto].
       apply ldr_ok_app; [exact I1|]. eapply ldr_ok_false_mono; [|exact I2]. auto.
-    - revert A. destruct e as [[]| | | | | |]; destruct st; cbn; intros A; try discriminate;
+    - revert A. destruct e as [[]| | | | | | |]; destruct st; cbn; intros A; try discriminate;
         inversion A; subst; cbn; repeat split; auto; try discriminate.
     - destruct (quietf 4 tbl f) eqn:Q; [|discriminate]. inversion A; subst r.
       pose proof (quietf_clean _ _ _ _ _ _ Q H H0) as C.
